@@ -174,7 +174,8 @@ func main() {
 		}
 	}
 	for k := range listed {
-		if !syms[k] && !strings.Contains(k, "(") {
+		// "(unexported)..." / "(interface)..." entries and whole-package lines ("<pkg> *") are hand-maintained extras
+		if !syms[k] && !strings.Contains(k, "(") && !strings.HasSuffix(k, " *") {
 			fmt.Printf("STALE %s (in the coverage list, not exported by the tree)\n", k)
 			bad++
 		}
